@@ -17,7 +17,9 @@ import textfn
 from common import Check, b64, harness, seed
 
 ALPHA_Q = ["\\", '"', "a", " ", "#", "/", "*", "@"]
-ALPHA_T = ["\\", '"', "a", " ", "#", "/", "*", "@", "[", "]", "\t", "é"]
+ALPHA_T = ["\\", '"', "a", " ", "#", "/", "*", "@", "[", "]", "\t", "é", "%", "?", "&", "+"]
+# values that look like URL syntax: the library must not interpret them
+URLISH = ["a%20b", "a%2Fb", "100%", "q?x=1", "a%zz", "a+b", "x&y=1", "%41", "a%2fb/{id}", "?", "a?", "%2e%2e"]
 
 
 def quote(v):
@@ -79,6 +81,7 @@ def main(tier):
     # (2) end to end
     vals = [v for v in textfn.all_strings(ALPHA_T, 3 if thorough else 2) if v != ""]
     vals += ["".join(rnd.choice(ALPHA_T) for _ in range(rnd.randrange(4, 12))) for _ in range(400 if thorough else 60)]
+    vals += URLISH
     cases, meta = [], {}
     n = 0
     for v in vals:
